@@ -31,14 +31,18 @@
     timer request reached it); timers firing is not modelled.  [process]
     runs on fuel: [ProcessMsg] has no limit in Go. *)
 From Sheens Require Export Model.Bindings.
+From Sheens Require Export Gen.Names.
 
 Definition mid := string.
 
-(** These are variables in Go ([sio.TimersMachine], [sio.CaptainMachine]);
-    every correspondence case carries the values the harness read from the
-    package and [Corr/SioCorr.v] compares them with these. *)
-Definition timers_id : mid := "timers".
-Definition captain_id : mid := "captain".
+(** These are variables in Go ([sio.TimersMachine], [sio.CaptainMachine]).
+    The model takes the values they are declared with in the source of the
+    tree under test (Gen/Names.v, written by harness/cmd/genconsts on every
+    run); every correspondence case carries the values the harness read from
+    the package at run time and [Corr/SioCorr.v] compares them with these;
+    Proofs/SioIdsTie.v states that they are the documented ids. *)
+Definition timers_id : mid := sio_timers_machine.
+Definition captain_id : mid := sio_captain_machine.
 Definition is_service (m : mid) : bool := String.eqb m timers_id || String.eqb m captain_id.
 
 Record mstate : Type := mk_ms { ms_node : string; ms_bs : bindings }.
